@@ -106,9 +106,11 @@ type proc struct {
 	seq             int
 }
 
-// setCurrent mirrors tso.Commit: committed := v, the dealt counter is raised to v if it is lower.
+// setCurrent mirrors tso.Commit: both counters are raised to v if they are lower, never lowered.
 func (p *proc) setCurrent(v uint64) {
-	p.committed = v
+	if p.committed < v {
+		p.committed = v
+	}
 	if p.deal < v {
 		p.deal = v
 	}
@@ -897,11 +899,8 @@ func campaignCase(scratch string, hist []hop, tsoOutage bool, followerRead bool,
 			return &lib.ImplFailure{What: "campaign: the in-flight follower read did not return"}
 		}
 		if now := p2.b.GetCurrentRevision(); now < v+2 {
-			code := 0
-			if lateAnswer {
-				code = 2 // finding C15-F2: the old leader's answer was late, not lost
-			}
-			return &lib.ImplFailure{Code: code, What: fmt.Sprintf("campaign: a follower read that was in flight across the election moved the new leader's revision backwards: SetCurrentRevision(%d) at take-over, %d after two requests, now %d (the follower had synced to %d earlier); stored maximum %d",
+			// (the late-answer variant is the witness of the repaired finding C15-F2: tso.Commit only raises)
+			return &lib.ImplFailure{Code: 0, What: fmt.Sprintf("campaign: a follower read that was in flight across the election moved the new leader's revision backwards: SetCurrentRevision(%d) at take-over, %d after two requests, now %d (the follower had synced to %d earlier); stored maximum %d",
 				v, v+2, now, syncedTo, maxRev),
 				Case: map[string]interface{}{"engine": "memkv", "old_leader_history": hist, "follower_synced_after_request": 3, "follower_synced_to": syncedTo,
 					"then":              "old leader stops answering /status; a follower read (SyncReadRevision) is in flight; old leader releases the lock; B runs the real Campaign()",
@@ -1075,7 +1074,7 @@ func main() {
 		c := <-ch
 		label := []string{"plain: ", "with a timestamp-oracle outage right after the elector's lock write: ",
 			"with a follower read (real revision syncer, old leader unreachable) in flight across the election: ",
-			"with a follower read in flight whose answer from the old leader arrives after the take-over (witness of finding C15-F2): "}[k]
+			"with a follower read in flight whose answer from the old leader arrives after the take-over (regression witness of the repaired C15-F2): "}[k]
 		if c.f != nil {
 			c.f.CaseID = len(cases)
 			c.f.What = label + c.f.What
